@@ -13,10 +13,16 @@ an ancestor whose child reports `false` is returned untouched — that is the C 
   the harness uses integer keys), values: `Nat` (the `void*` value, never inspected);
 * `bal` is the stored `int8_t balance` field — it is *stored*, not recomputed, so the
   model can be wrong about it in exactly the way the C code could be;
+* every node carries its identity `id` (its address: the n-th node ever allocated for
+  this tree has id n) and the stored `parent` pointer `par` (the id of the node it
+  points to, `none` = NULL). The model performs exactly the parent assignments of the
+  C code (`z->parent = parent; x->parent = z; if (z->left) z->left->parent = x; …`), so
+  a forgotten or wrong assignment in the C code shows up as a difference in the dump;
+  removal swaps key/value between nodes and leaves `id`/`par` in place, as the C code;
 * NULL dereferences of the C code (`node->left->balance` of a missing child in
   `rebalance`, `z->left` of a missing grandchild in the double rotations) are explicit
   errors (`Err.null`), not defaults. The theorems show they are unreachable.
-* node allocation (malloc or the node pool) is assumed to succeed.
+* node allocation (malloc or the node pool) is assumed to succeed with a fresh block.
 -/
 namespace MgModel.C09
 
@@ -24,80 +30,91 @@ inductive Err where
   | null           -- the C code would dereference a NULL child / grandchild
   deriving Repr, DecidableEq
 
-/-- `muggle_avl_tree_node_t` without the parent link. -/
+/-- `muggle_avl_tree_node_t`: children, key, value, balance, own identity, parent pointer. -/
 inductive T where
   | nil
-  | node (l : T) (k : Int) (v : Nat) (bal : Int) (r : T)
+  | node (l : T) (k : Int) (v : Nat) (bal : Int) (r : T) (id : Nat) (par : Option Nat)
   deriving Repr, DecidableEq
 
 namespace T
+
+/-- `if (t) t->parent = p;` -/
+def setPar : T → Option Nat → T
+  | nil, _ => nil
+  | node l k v b r i _, p => node l k v b r i p
 
 /-! ## rotations: `muggle_avl_tree_rotate_left/right/right_left/left_right` -/
 
 /-- `rotate_left(x)`: `z = x->right` comes up. Returns the new subtree and
 "depth decreased" (the C return value). -/
 def rotateLeft : T → Except Err (T × Bool)
-  | node t1 xk xv _ (node t23 zk zv zb t4) =>
-    if zb = 0 then .ok (node (node t1 xk xv 1 t23) zk zv (-1) t4, false)
-    else .ok (node (node t1 xk xv 0 t23) zk zv 0 t4, true)
+  | node t1 xk xv _ (node t23 zk zv zb t4 zi _) xi xp =>
+    if zb = 0 then
+      .ok (node (node t1 xk xv 1 (setPar t23 (some xi)) xi (some zi)) zk zv (-1) t4 zi xp, false)
+    else
+      .ok (node (node t1 xk xv 0 (setPar t23 (some xi)) xi (some zi)) zk zv 0 t4 zi xp, true)
   | _ => .error .null
 
 /-- `rotate_right(x)`: `z = x->left` comes up. -/
 def rotateRight : T → Except Err (T × Bool)
-  | node (node t4 zk zv zb t23) xk xv _ t1 =>
-    if zb = 0 then .ok (node t4 zk zv 1 (node t23 xk xv (-1) t1), false)
-    else .ok (node t4 zk zv 0 (node t23 xk xv 0 t1), true)
+  | node (node t4 zk zv zb t23 zi _) xk xv _ t1 xi xp =>
+    if zb = 0 then
+      .ok (node t4 zk zv 1 (node (setPar t23 (some xi)) xk xv (-1) t1 xi (some zi)) zi xp, false)
+    else
+      .ok (node t4 zk zv 0 (node (setPar t23 (some xi)) xk xv 0 t1 xi (some zi)) zi xp, true)
   | _ => .error .null
 
 /-- `rotate_right_left(x)`: `z = x->right`, `y = z->left` comes up. -/
 def rotateRightLeft : T → Except Err T
-  | node t1 xk xv _ (node (node t2 yk yv yb t3) zk zv _ t4) =>
+  | node t1 xk xv _ (node (node t2 yk yv yb t3 yi _) zk zv _ t4 zi _) xi xp =>
     let xb : Int := if yb > 0 then -1 else 0
     let zb : Int := if yb > 0 then 0 else if yb = 0 then 0 else 1
-    .ok (node (node t1 xk xv xb t2) yk yv 0 (node t3 zk zv zb t4))
+    .ok (node (node t1 xk xv xb (setPar t2 (some xi)) xi (some yi)) yk yv 0
+          (node (setPar t3 (some zi)) zk zv zb t4 zi (some yi)) yi xp)
   | _ => .error .null
 
 /-- `rotate_left_right(x)`: `z = x->left`, `y = z->right` comes up. -/
 def rotateLeftRight : T → Except Err T
-  | node (node t4 zk zv _ (node t3 yk yv yb t2)) xk xv _ t1 =>
+  | node (node t4 zk zv _ (node t3 yk yv yb t2 yi _) zi _) xk xv _ t1 xi xp =>
     let xb : Int := if yb > 0 then 0 else if yb = 0 then 0 else 1
     let zb : Int := if yb > 0 then -1 else 0
-    .ok (node (node t4 zk zv zb t3) yk yv 0 (node t2 xk xv xb t1))
+    .ok (node (node t4 zk zv zb (setPar t3 (some zi)) zi (some yi)) yk yv 0
+          (node (setPar t2 (some xi)) xk xv xb t1 xi (some yi)) yi xp)
   | _ => .error .null
 
 /-- the stored balance of the root (`child->balance`); `none` for a NULL child -/
 def rootBal : T → Option Int
   | nil => none
-  | node _ _ _ b _ => some b
+  | node _ _ _ b _ _ _ => some b
 
 /-- `muggle_avl_tree_rebalance(node)`: returns the new subtree and "depth decreased". -/
 def rebalance : T → Except Err (T × Bool)
   | nil => .error .null
-  | node l k v b r =>
+  | node l k v b r i p =>
     if b < -1 then
       match rootBal l with
       | none => .error .null
       | some cb =>
-        if cb ≤ 0 then rotateRight (node l k v b r)
-        else match rotateLeftRight (node l k v b r) with
+        if cb ≤ 0 then rotateRight (node l k v b r i p)
+        else match rotateLeftRight (node l k v b r i p) with
           | .ok t => .ok (t, true)
           | .error e => .error e
     else if b > 1 then
       match rootBal r with
       | none => .error .null
       | some cb =>
-        if cb ≥ 0 then rotateLeft (node l k v b r)
-        else match rotateRightLeft (node l k v b r) with
+        if cb ≥ 0 then rotateLeft (node l k v b r i p)
+        else match rotateRightLeft (node l k v b r i p) with
           | .ok t => .ok (t, true)
           | .error e => .error e
-    else .ok (node l k v b r, false)
+    else .ok (node l k v b r i p, false)
 
 /-! ## find -/
 
 /-- `muggle_avl_tree_find`: the value of the node found, `none` for NULL. -/
 def find : T → Int → Option Nat
   | nil, _ => none
-  | node l k v _ r, x =>
+  | node l k v _ r _ _, x =>
     if x = k then some v else if x < k then find l x else find r x
 
 /-! ## insert -/
@@ -105,43 +122,44 @@ def find : T → Int → Option Nat
 /-- one step of the insert retracing loop at a node whose child on side `left`
 (`insert_side`) has just been replaced by `c` and reported `grew`. Returns the
 new subtree and whether retracing continues above it. -/
-def insRetrace (left : Bool) (l : T) (k : Int) (v : Nat) (b : Int) (r : T) (grew : Bool) :
-    Except Err (T × Bool) :=
-  if !grew then .ok (node l k v b r, false)
+def insRetrace (left : Bool) (l : T) (k : Int) (v : Nat) (b : Int) (r : T) (i : Nat)
+    (p : Option Nat) (grew : Bool) : Except Err (T × Bool) :=
+  if !grew then .ok (node l k v b r i p, false)
   else
     let b' := if left then b - 1 else b + 1
-    if b' = 0 then .ok (node l k v b' r, false)
-    else if b' = 1 ∨ b' = -1 then .ok (node l k v b' r, true)
-    else match rebalance (node l k v b' r) with
+    if b' = 0 then .ok (node l k v b' r i p, false)
+    else if b' = 1 ∨ b' = -1 then .ok (node l k v b' r i p, true)
+    else match rebalance (node l k v b' r i p) with
       | .ok (t, _) => .ok (t, false)       -- the C code ignores the return value and breaks
       | .error e => .error e
 
-/-- `muggle_avl_tree_insert`. `none` = the key exists (C returns NULL, tree untouched);
-`some (t, grew)` = new tree and whether its height grew. -/
-def ins (x : Int) (xv : Nat) : T → Except Err (Option (T × Bool))
-  | nil => .ok (some (node nil x xv 0 nil, true))
-  | node l k v b r =>
+/-- `muggle_avl_tree_insert`. `fresh` is the identity of the node that gets allocated,
+`par` the node the descent came from (`new_node->parent = node`). `none` = the key exists
+(C returns NULL, tree untouched); `some (t, grew)` = new tree and whether its height grew. -/
+def ins (x : Int) (xv : Nat) (fresh : Nat) : Option Nat → T → Except Err (Option (T × Bool))
+  | par, nil => .ok (some (node nil x xv 0 nil fresh par, true))
+  | _, node l k v b r i p =>
     if x = k then .ok none
     else if x < k then
-      match ins x xv l with
+      match ins x xv fresh (some i) l with
       | .error e => .error e
       | .ok none => .ok none
       | .ok (some (l', g)) =>
-        match insRetrace true l' k v b r g with
-        | .ok p => .ok (some p)
+        match insRetrace true l' k v b r i p g with
+        | .ok q => .ok (some q)
         | .error e => .error e
     else
-      match ins x xv r with
+      match ins x xv fresh (some i) r with
       | .error e => .error e
       | .ok none => .ok none
       | .ok (some (r', g)) =>
-        match insRetrace false l k v b r' g with
-        | .ok p => .ok (some p)
+        match insRetrace false l k v b r' i p g with
+        | .ok q => .ok (some q)
         | .error e => .error e
 
 /-- the API call: new tree (unchanged when rejected) and "a node was returned" -/
-def insert (t : T) (x : Int) (xv : Nat) : Except Err (T × Bool) :=
-  match ins x xv t with
+def insert (t : T) (x : Int) (xv : Nat) (fresh : Nat) : Except Err (T × Bool) :=
+  match ins x xv fresh none t with
   | .error e => .error e
   | .ok none => .ok (t, false)
   | .ok (some (t', _)) => .ok (t', true)
@@ -150,14 +168,14 @@ def insert (t : T) (x : Int) (xv : Nat) : Except Err (T × Bool) :=
 
 /-- one step of the remove retracing loop at a node whose child on side `left`
 (`remove_side`) has just been replaced and reported `shrank`. -/
-def delRetrace (left : Bool) (l : T) (k : Int) (v : Nat) (b : Int) (r : T) (shrank : Bool) :
-    Except Err (T × Bool) :=
-  if !shrank then .ok (node l k v b r, false)
+def delRetrace (left : Bool) (l : T) (k : Int) (v : Nat) (b : Int) (r : T) (i : Nat)
+    (p : Option Nat) (shrank : Bool) : Except Err (T × Bool) :=
+  if !shrank then .ok (node l k v b r i p, false)
   else
     let b' := if left then b + 1 else b - 1
-    if b' = 1 ∨ b' = -1 then .ok (node l k v b' r, false)
-    else if b' = 0 then .ok (node l k v b' r, true)
-    else rebalance (node l k v b' r)     -- continue iff depth decreased
+    if b' = 1 ∨ b' = -1 then .ok (node l k v b' r i p, false)
+    else if b' = 0 then .ok (node l k v b' r i p, true)
+    else rebalance (node l k v b' r i p)     -- continue iff depth decreased
 
 /-- The "move data into a leaf" loop started at the maximum node of a subtree
 (`target = node->left; while (target->right) target = target->right`), fused with the
@@ -167,7 +185,7 @@ its predecessor's key/value and the loop goes on below it. Returns the new subtr
 the removed (key, value) and `shrank`. -/
 def popMax : T → Except Err (T × Int × Nat × Bool)
   | nil => .error .null
-  | node l k v b r =>
+  | node l k v b r i p =>
     match r with
     | nil =>
       match l with
@@ -176,14 +194,14 @@ def popMax : T → Except Err (T × Int × Nat × Bool)
         match popMax l with
         | .error e => .error e
         | .ok (l', k2, v2, s) =>
-          match delRetrace true l' k2 v2 b nil s with
+          match delRetrace true l' k2 v2 b nil i p s with
           | .error e => .error e
           | .ok (t, s') => .ok (t, k, v, s')
     | node .. =>
       match popMax r with
       | .error e => .error e
       | .ok (r', km, vm, s) =>
-        match delRetrace false l k v b r' s with
+        match delRetrace false l k v b r' i p s with
         | .error e => .error e
         | .ok (t, s') => .ok (t, km, vm, s')
 
@@ -191,7 +209,7 @@ def popMax : T → Except Err (T × Int × Nat × Bool)
 (`target = node->right; while (target->left) target = target->left`). -/
 def popMin : T → Except Err (T × Int × Nat × Bool)
   | nil => .error .null
-  | node l k v b r =>
+  | node l k v b r i p =>
     match l with
     | nil =>
       match r with
@@ -200,14 +218,14 @@ def popMin : T → Except Err (T × Int × Nat × Bool)
         match popMin r with
         | .error e => .error e
         | .ok (r', k2, v2, s) =>
-          match delRetrace false nil k2 v2 b r' s with
+          match delRetrace false nil k2 v2 b r' i p s with
           | .error e => .error e
           | .ok (t, s') => .ok (t, k, v, s')
     | node .. =>
       match popMin l with
       | .error e => .error e
       | .ok (l', km, vm, s) =>
-        match delRetrace true l' k v b r s with
+        match delRetrace true l' k v b r i p s with
         | .error e => .error e
         | .ok (t, s') => .ok (t, km, vm, s')
 
@@ -216,42 +234,42 @@ def popMin : T → Except Err (T × Int × Nat × Bool)
 `node`. Returns the new subtree and `shrank`. -/
 def delRoot : T → Except Err (T × Bool)
   | nil => .error .null
-  | node l _ _ b r =>
+  | node l _ _ b r i p =>
     match l, r with
     | nil, nil => .ok (nil, true)
     | node .., _ =>
       match popMax l with
       | .error e => .error e
-      | .ok (l', km, vm, s) => delRetrace true l' km vm b r s
+      | .ok (l', km, vm, s) => delRetrace true l' km vm b r i p s
     | nil, node .. =>
       match popMin r with
       | .error e => .error e
-      | .ok (r', km, vm, s) => delRetrace false nil km vm b r' s
+      | .ok (r', km, vm, s) => delRetrace false nil km vm b r' i p s
 
 /-- find the node with key `x` (as `muggle_avl_tree_find` does), remove it, retrace.
 `none` = no such key. -/
 def del (x : Int) : T → Except Err (Option (T × Bool))
   | nil => .ok none
-  | node l k v b r =>
+  | node l k v b r i p =>
     if x = k then
-      match delRoot (node l k v b r) with
-      | .ok p => .ok (some p)
+      match delRoot (node l k v b r i p) with
+      | .ok q => .ok (some q)
       | .error e => .error e
     else if x < k then
       match del x l with
       | .error e => .error e
       | .ok none => .ok none
       | .ok (some (l', s)) =>
-        match delRetrace true l' k v b r s with
-        | .ok p => .ok (some p)
+        match delRetrace true l' k v b r i p s with
+        | .ok q => .ok (some q)
         | .error e => .error e
     else
       match del x r with
       | .error e => .error e
       | .ok none => .ok none
       | .ok (some (r', s)) =>
-        match delRetrace false l k v b r' s with
-        | .ok p => .ok (some p)
+        match delRetrace false l k v b r' i p s with
+        | .ok q => .ok (some q)
         | .error e => .error e
 
 /-- the API sequence `n = find(x); if (n) remove(n)`: new tree and "was present" -/
@@ -265,16 +283,21 @@ def remove (t : T) (x : Int) : Except Err (T × Bool) :=
 
 def height : T → Nat
   | nil => 0
-  | node l _ _ _ r => max (height l) (height r) + 1
+  | node l _ _ _ r _ _ => max (height l) (height r) + 1
 
 def size : T → Nat
   | nil => 0
-  | node l _ _ _ r => size l + size r + 1
+  | node l _ _ _ r _ _ => size l + size r + 1
 
 /-- in-order list of the associations -/
 def toList : T → List (Int × Nat)
   | nil => []
-  | node l k v _ r => toList l ++ (k, v) :: toList r
+  | node l k v _ r _ _ => toList l ++ (k, v) :: toList r
+
+/-- in-order list of the node identities -/
+def ids : T → List Nat
+  | nil => []
+  | node l _ _ _ r i _ => ids l ++ i :: ids r
 
 /-- `lo < k`, no bound when `lo` is `none` -/
 def gtLo (lo : Option Int) (k : Int) : Bool :=
@@ -293,16 +316,26 @@ recomputes from the real pointers): strict search order within the open interval
 `(lo, hi)`, stored balance = height(right) − height(left), |balance| ≤ 1 -/
 def wellFormed : Option Int → Option Int → T → Bool
   | _, _, nil => true
-  | lo, hi, node l k _ b r =>
+  | lo, hi, node l k _ b r _ _ =>
     gtLo lo k && ltHi hi k &&
     decide (b = (height r : Int) - (height l : Int)) &&
     decide (-1 ≤ b ∧ b ≤ 1) &&
     wellFormed lo (some k) l && wellFormed (some k) hi r
 
-/-- pre-order dump with shape: `(k v b L R)`, `-` for NULL -/
+/-- executable check of the parent links: every node's stored parent pointer is the
+identity of the node it hangs under (`p` for the root of this subtree) -/
+def parentsOk : Option Nat → T → Bool
+  | _, nil => true
+  | p, node l _ _ _ r i q => decide (q = p) && parentsOk (some i) l && parentsOk (some i) r
+
+def showPar : Option Nat → String
+  | none => "-"
+  | some i => toString i
+
+/-- pre-order dump with shape: `(k v b id parent L R)`, `-` for NULL -/
 def dump : T → String
   | nil => "-"
-  | node l k v b r => s!"({k} {v} {b} {dump l} {dump r})"
+  | node l k v b r i p => s!"({k} {v} {b} #{i} ^{showPar p} {dump l} {dump r})"
 
 end T
 
